@@ -191,10 +191,15 @@ pub fn case(seed: u64, lane: Lane, trace: bool) -> CaseOut {
                 // (packets the closer can no longer decrypt - e.g. Handshake packets after it dropped
                 // those keys - do not make it speak again)
                 let closer_frames_now = w.eps[peer_ep].conns.values().find(|p| p.pair == c.pair).map(|p| crate::mon::frame_rx_total(&p.c.stats().frame_rx));
-                let closer_heard = match (closer_mon.and_then(|m| m.frames_rx_at_close), closer_frames_now) {
+                let closer_heard_any = match (closer_mon.and_then(|m| m.frames_rx_at_close), closer_frames_now) {
                     (Some(a), Some(b)) => b > a,
                     _ => false,
                 };
+                // ... and heard it early enough for the repeated announcement to come back while
+                // this side was still there
+                let back_slack = w.netcfg.latency_ns + w.netcfg.jitter_ns + w.drv.timer_late_ns + 2_000_000;
+                let my_lost_ns = cm.and_then(|m| m.lost_ns);
+                let closer_heard = closer_heard_any && closer_mon.map_or(false, |m| m.heard_after_close_ns.iter().any(|&h| my_lost_ns.map_or(true, |l| l > h + back_slack)));
                 let rtt_slack = 2 * (w.netcfg.latency_ns + w.netcfg.jitter_ns) + w.drv.timer_late_ns + 2_000_000;
                 let spoke_in_time = cm.map_or(false, |m| {
                     m.tx_log.iter().any(|&(t, _, _)| {
@@ -276,8 +281,9 @@ pub fn case(seed: u64, lane: Lane, trace: bool) -> CaseOut {
                 if m.timed_out {
                     cnt.inc("c08.timeout_checks");
                     // before the peer's transport parameters are known only the local setting applies
-                    // (a server learns the client's parameters with the very first packet)
-                    let effective = if c.app.connected || c.side == proto::Side::Server { negotiated } else { c.tcfg.idle_ms };
+                    // (a server normally learns the client's parameters with the very first packet; a
+                    // zombie born from a later copy of an Initial that carries no ClientHello never does)
+                    let effective = if c.app.connected || c.app.hs_data_ready { negotiated } else { c.tcfg.idle_ms };
                     let idle_ns = effective.map(|i| i as u64 * 1_000_000);
                     if c.app.connected {
                         cnt.inc("c08.negotiation_checks");
